@@ -143,8 +143,11 @@ end
 def wrapBlocks (qs : List QBlock) (m : Term) : Term :=
   qs.foldl (fun r qv => if qv.1 then mkExists qv.2 r else mkForall qv.2 r) m
 
-/-- `prenex_normal_form(t)`; `none` when the Python code raises (a non-Boolean input, a
-quantifier below a theory operator that sits in a Boolean position, …) -/
+/-- `prenex_normal_form(t)`; `none` when the Python code raises: a non-Boolean input, or a theory
+operator without a Boolean reading in a Boolean position (cannot happen on well-typed input:
+`prenex_total`).  A quantifier *inside a theory atom* does not make the walk fail: the atom is returned
+unchanged, in Python and in the model alike (the result is then not in prenex form, which is why
+`prenex_shape` assumes `quantInBoolPos`). -/
 def prenex (fresh : Nat → String) (t : Term) : Option Term :=
   (prenexW fresh t 0).1.map (fun r => wrapBlocks r.1 r.2)
 
